@@ -67,6 +67,7 @@ func init() {
 		ruleMapRangeReturnFile(c, r, "util", "gnmi.go")
 		ruleWildcards(c, r)
 		ruleKeyMapLookup(c, r, "util", "gnmi.go")
+		ruleElemAll(c, r)
 	})
 }
 
@@ -130,6 +131,7 @@ func init() {
 			"that each reached checker is semantically right for all values; completeness (no error) for valid trees.")
 		ruleValidateReach(c, r)
 		ruleValidatorSkip(c, r)
+		ruleKeyCheckSkip(c, r)
 		ruleUnionMember(c, r)
 		ruleLengthUnits(c, r)
 		ruleSignConv(c, r, c.anchored("C07", "ytypes/int_type.go", "ytypes/string_type.go", "ytypes/decimal_type.go", "ytypes/binary_type.go"), 2)
@@ -217,6 +219,7 @@ func init() {
 		ruleIfaceEq(c, r, fs)
 		ruleCallArity(c, r, fs)
 		ruleNoPanicCalls(c, r, fs)
+		ruleTableIndex(c, r, fs)
 	})
 }
 
@@ -327,6 +330,8 @@ func init() {
 		ruleKeyMember(c, r)
 		ruleDefaultSource(c, r)
 		ruleDefaultValueSemantics(c, r)
+		ruleDefaultVerbatim(c, r)
+		ruleEmptyTreeAll(c, r)
 	})
 }
 
@@ -361,6 +366,7 @@ func init() {
 		ruleChoiceTransparent(c, r)
 		ruleSchemaEmbed(c, r)
 		ruleSchemaTreeKey(c, r)
+		ruleLoopNameUnique(c, r)
 	})
 }
 
@@ -370,6 +376,7 @@ func init() {
 			"that GetNode returns exactly the stored value for every payload (value level); the frame condition for all trees beyond the write-site rule; sequences of sets.")
 		ruleSetAtTarget(c, r)
 		ruleWriteGated(c, r)
+		ruleWriteThrough(c, r)
 		ruleTablesKeys(c, r)
 		ruleDecodeDiscipline(c, r)
 		ruleFloat2Int(c, r)
